@@ -467,6 +467,9 @@ def rule_det(ctx):
 
 def run(ctx):
     from ..report import SubCtx
+    from . import c07
+    sub_c07 = SubCtx(ctx, 'C10.score', 'the nrt run is observed through the score: every bundle is one entry, ordered by time and send order, as decided for C07')
+    c07.rule_score(sub_c07)
     from . import c09
     sub = SubCtx(ctx, 'C10.queue', 'rt clocks and the nrt scheduler share one queue class: its priority-queue contract, as decided for C09')
     c09.rule_inv(sub)
